@@ -48,7 +48,21 @@ def reference_roles(arglist, layout):
     specs = [f for f in ordered if f.endswith(".spec")]
     ugs = [f for f in ordered if f.endswith(".ug")]
     pos = [f for f in ordered if f.endswith(".po")]
-    return {"lps": lps, "spec": specs[0] if specs else None, "ug": ugs[0] if ugs else None, "po": pos[0] if pos else None}
+    # The property fixes the roles of the .lp files by argument order; it does not say WHICH of several
+    # .spec / .ug / .po files is used, so every one of them is an admissible choice for the reference.
+    return {"lps": lps, "spec": specs[0] if specs else None, "ug": ugs[0] if ugs else None, "po": pos[0] if pos else None,
+            "specs": specs, "ugs": ugs, "pos": pos}
+
+def canonical_candidates(equiv, roles):
+    """all canonical calls that differ only in which of several same-extension non-.lp files is used"""
+    out = []
+    for sp in (roles.get("specs") or [None]):
+        for ug in (roles.get("ugs") or [None]):
+            for po in (roles.get("pos") or [None]):
+                c = canonical_args(equiv, dict(roles, spec=sp, ug=ug, po=po))
+                if c is not None and c not in out:
+                    out.append(c)
+    return out
 
 def canonical_args(equiv, roles):
     if equiv == "strong":
@@ -108,7 +122,7 @@ def main():
     run = Run("C20", tier)
     run.rule = ("file sets {2 .lp}, {3 .lp}, {2 .lp, .ug}, {.spec, 1-2 .lp, .ug}, {... + .po}, {... + notes.txt, README.md}, {mixed-case names B.lp, a.lp, Z.ug, t.ug}: ALL permutations of the argument list x each file given directly or via a "
                 "directory (all groupings of up to two directories) for strong and external equivalence with --no-proof-search --save-problems; oracle: the emitted problem files equal those of the canonical "
-                "call whose roles come from the reference rule (extension buckets; .lp in argument order, file-name order inside a directory); swapping the two programs of a strong task, and of an external task over two programs with distinct private predicates, maps forward onto "
+                "call whose roles come from the reference rule (extension buckets; .lp in argument order, file-name order inside a directory; where several .spec/.ug/.po files are given the property does not say which one is used, so any of them is accepted); swapping the two programs of a strong task, and of an external task over two programs with distinct private predicates, maps forward onto "
                 "backward with axioms and conjectures exchanged; non-trivial = distinct emitted problem sets")
     base = scratch("c20_")
     try:
@@ -168,15 +182,24 @@ def main():
             for job, code, probs, err, roles in pool.map(do, jobs):
                 equiv, files, layout, perm = job
                 run.states += 1; run.transitions += max(1, len(probs))
-                cargs = canonical_args(equiv, roles)
+                cands = canonical_candidates(equiv, roles)
+                cargs = cands[0] if cands else None
                 desc = {"equivalence": equiv, "arguments": perm, "directories": layout, "reference_roles": roles}
                 if cargs is None:
                     if code == 0 and probs:
                         run.violation("problems_without_required_files", dict(desc, problems=sorted(probs)))
                     continue
-                ccode, cprobs, cerr = canon(equiv, cargs)
                 run.observe((equiv, tuple(sorted((k, hash(v)) for k, v in probs.items()))))
-                if code != ccode or probs != cprobs:
+                matches = False
+                for cand in cands:
+                    ccode, cprobs, cerr = canon(equiv, cand)
+                    if code == ccode and probs == cprobs:
+                        matches = True
+                        break
+                if len(cands) > 1:
+                    run.count("configurations_with_several_files_of_one_non_lp_extension")
+                ccode, cprobs, cerr = canon(equiv, cargs)
+                if not matches:
                     diff = [k for k in set(probs) | set(cprobs) if probs.get(k) != cprobs.get(k)]
                     run.violation("roles_differ_from_reference_rule", dict(desc, canonical_call=cargs, exit=code, canonical_exit=ccode, differing_problems=sorted(diff)[:6], stderr=err))
         # swap property for strong equivalence
